@@ -224,6 +224,12 @@ def check_trait_sigs(repo: Repo, log: list) -> str:
         if want not in body:
             raise AnchorLost(f"trait Queryable: signature of `{name}` differs from contracts/queryable_trait.rs")
         log.append(f"E6 Queryable::{name} signature matches /repo")
+    for m in re.finditer(r"//@sig-provided\s*\n\s*fn\s+(\w+)\s*(\([^)]*\))\s*->\s*\(r:\s*(.*?)\)\s*\n", text):
+        name, params, ret = m.group(1), m.group(2), m.group(3)
+        want = _norm(f"fn {name}{params} -> {ret} {{")
+        if want not in body:
+            raise AnchorLost(f"trait Queryable: signature of the provided method `{name}` differs from contracts/queryable_trait.rs")
+        log.append(f"E6 Queryable::{name} (provided method) signature matches /repo; its default body is dropped")
     return text
 
 
@@ -487,6 +493,7 @@ PRELUDE = """// GENERATED by /verif/vx — do not edit.  Unit under proof: {unit
 use vstd::prelude::*;
 use vstd::multiset::Multiset;
 use std::cmp::{{max, min, Ordering}};
+use std::borrow::Cow;
 verus! {{
 global size_of usize == 8;
 pub type QueryPath = String;
